@@ -118,7 +118,7 @@ CHECKS = {
             'Trusted: TLC; Query.tla/Wiring.tla; paths are generated from the specification tree.',
             'DESIGN.md section 3 C16'),
     'C18': (['Script.tla', 'Cmd.tla'],
-            'TLA+ spec Script.tla: reference semantics on fragment sequences vs character automaton, model-checked by TLC over all scripts of <=4/5 fragments; every script replayed into '
+            'TLA+ spec Script.tla: reference semantics on fragment sequences vs character automaton, model-checked by TLC over all scripts of <=4 fragments (thorough: the full pools); every script replayed into '
             'process_embedded_query_expr / ScriptRunner; nesting-level laws validated by TLC on recorded query results of real messages (paths crossed with subset selectors, incl. selections whose first subset contributes nothing); Cmd.tla script invocations (nest level from option, pragma or default)',
             'Exhaustive over the bounded fragment space on both sides; the level laws are checked by TLC on recorded implementation output (trace validation).',
             'Trusted: TLC; Script.tla; escape-free literals.',
